@@ -48,6 +48,9 @@ def gen_hist_case(rng, max_n=6, max_ops=7):
                 sel["root"] = sorted(rng.sample(roots, 1))
             elif mode < 0.6:
                 cache_deps_of = sorted(rng.sample(range(n), rng.randint(1, min(2, n))))
+                far = [(a_, b_) for a_, m_ in edges for m2_, b_ in edges if m_ == m2_]
+                if far and rng.random() < 0.5:
+                    cache_deps_of = sorted(rng.choice(far))  # a -> m -> b: the file will hold m but neither a nor b
             op = dict(kind="exec", args=args, run_debug=rng.random() < 0.3, cache_in=rng.random() < 0.5, from_cache=None, cache_deps_of=cache_deps_of, again=rng.random() < 0.3, **sel)
             if execs and rng.random() < 0.5:
                 src = rng.choice(execs)
@@ -80,6 +83,29 @@ class Poison(int):
 
     def __reduce_ex__(self, protocol):
         raise pickle.PicklingError("this value cannot be pickled")
+
+
+def _chain_case(n, edges, ops, **kw):
+    c = dict(kind="graph", n=n, edges=edges, prios=[0] * n, debug=[], setup=[], tags={}, consts={}, queries=[], params=[], param_use={},
+             ops=ops, final_args=[], maxc=1, none_ret=[], is_async=False)
+    c.update(kw)
+    return c
+
+
+def _ex(**kw):
+    op = dict(kind="exec", args=[], run_debug=False, cache_in=False, from_cache=None, cache_deps_of=None, again=False, target=None, exclude=None, root=None)
+    op.update(kw)
+    return op
+
+
+CORPUS = [
+    # the cache of `cache_deps_of=[a, b]` with a an ancestor of b through m is not closed under ancestors:
+    # the restart must not run m again
+    _chain_case(4, [[0, 1], [1, 2], [2, 3]], [_ex(cache_deps_of=[1, 3], cache_in=True), _ex(cache_deps_of=[1, 3], from_cache=0)]),
+    _chain_case(5, [[0, 1], [1, 2], [2, 3], [0, 4]], [_ex(cache_deps_of=[1, 3], cache_in=True), _ex(cache_deps_of=[1, 3], from_cache=0), _ex(from_cache=0)], is_async=True),
+    # one path rewritten between two restarts
+    _chain_case(3, [[0, 1], [1, 2]], [_ex(target=[1], cache_in=True), _ex(from_cache=0), _ex(cache_in=True), _ex(from_cache=2)]),
+]
 
 
 def build(case):
@@ -310,6 +336,7 @@ def run(pid, tier, seed, res, only=None):
     cases = []
     for f in sorted(__import__("glob").glob(os.path.join(coqrun.VERIF, "corpus", "hist", "*.json"))):
         cases.append(json.load(open(f))["case"])
+    cases.extend(json.loads(json.dumps(c)) for c in CORPUS)
     for _ in range(n):
         cases.append(gen_hist_case(rng, max_n=6 if tier == "quick" else 8))
     if only is not None:
